@@ -1,3 +1,4 @@
+import NimaVerif.Lemmas.NameAgree
 import NimaVerif.Lemmas.EditScoped
 import NimaVerif.Lemmas.Hoare
 /-!
@@ -24,6 +25,8 @@ SPEC definitions used (`Model/Frame.lean`): `Doc.frames`, `Doc.allFrames`, `Doc.
 `run`, `Doc.Fresh`, `Doc.NoLayers`, `hole`, `Doc.sidElsewhere`; here: `others`.
 -/
 namespace Nima.C04
+-- name tokens are compared by spelling in this file (see `NameCmp` in Model/Edit.lean)
+attribute [local instance] NameCmp.spelled
 
 open Node
 
@@ -441,5 +444,163 @@ example : ∀ x ∈ (run [.set "@y".toList (.one (.atom "1".toList)), .rm "s.q".
       or_false, false_or] at hm
     rcases hm with ⟨_, rfl⟩ | ⟨_, rfl⟩ <;> simp [Node.allFrames] at hv
   · exact Or.inr h
+
+/-! ## For the repaired code (`NameCmp.model`, i.e. lookups through `_same_attr_name`)
+
+Everything above is stated for the name comparison by spelling (`NameCmp.spelled`, declared at the head
+of this file). `setValue_model_eq_spelled` / `removeValue_model_eq_spelled` (Lemmas/NameAgree.lean) make
+it a statement about the model of the repaired code under the decidable side condition
+`NameAgree.noSpellingClash d p`: among the name tokens of the document and the keys of the path no two are
+different spellings of one Nix name. The single-operation theorems restated that way (hypotheses about
+lookups keep the comparison by spelling, which is the code's on such inputs): -/
+
+theorem repaired_set_is_spelled (p : Text) (v : ValueArg) (d : Doc) (hns : NameAgree.noSpellingClash d p) :
+    @setValue NameCmp.model p v d = setValue p v d := NameAgree.setValue_model_eq_spelled p v d hns
+
+theorem repaired_rm_is_spelled (p : Text) (d : Doc) (hns : NameAgree.noSpellingClash d p) :
+    @removeValue NameCmp.model p d = removeValue p d := NameAgree.removeValue_model_eq_spelled p d hns
+
+theorem set_existing_plain_repaired (d : Doc) (p k : Text) (v : Node) (bid : Nat) (nm : Text) (ne : Bool)
+    (val : Node) (bf af : Payload)
+    (hnt : d.noTarget = none) (hsp : splitScopeNpath p = .ok none)
+    (hf : formatNPath currentAnchor p = .ok [k])
+    (hr : findAttrpathRoot d.target.setValues k = none)
+    (hb : findBinding d.target.setValues k = some (.bind bid nm ne val bf af))
+    (hval : val.isIdent = false)
+    (hns : NameAgree.noSpellingClash d p) :
+    @setValue NameCmp.model p (.one v) d = (.ok (), d.updBind bid v) := by
+  simp only [NameAgree.setValue_model_eq_spelled p _ d hns, NameAgree.removeValue_model_eq_spelled p d hns] at *
+  exact set_existing_plain d p k v bid nm ne val bf af hnt hsp hf hr hb hval
+
+theorem set_existing_frame_repaired (d d' : Doc) (p k : Text) (v : Node) (bid : Nat) (nm : Text) (ne : Bool)
+    (val : Node) (bf af : Payload)
+    (hnt : d.noTarget = none) (hsp : splitScopeNpath p = .ok none)
+    (hf : formatNPath currentAnchor p = .ok [k])
+    (hr : findAttrpathRoot d.target.setValues k = none)
+    (hb : findBinding d.target.setValues k = some (.bind bid nm ne val bf af))
+    (hval : val.isIdent = false)
+    (hset : @setValue NameCmp.model p (.one v) d = (.ok (), d'))
+    (hns : NameAgree.noSpellingClash d p) :
+    others bid d' = others bid d ∧ d'.frames bid = d.frames bid ∧ d'.wrappers = d.wrappers ∧
+      d'.next = d.next := by
+  simp only [NameAgree.setValue_model_eq_spelled p _ d hns, NameAgree.removeValue_model_eq_spelled p d hns] at *
+  exact set_existing_frame d d' p k v bid nm ne val bf af hnt hsp hf hr hb hval hset
+
+theorem set_attrpath_leaf_repaired (d : Doc) (p : Text) (segs : List Text) (v : Node) (lid : Nat) (nm : Text)
+    (ne : Bool) (val : Node) (bf af : Payload)
+    (hnt : d.noTarget = none) (hsp : splitScopeNpath p = .ok none)
+    (hf : formatNPath currentAnchor p = .ok segs)
+    (hl : findAttrpathLeaf d.target segs = some (.bind lid nm ne val bf af))
+    (hns : NameAgree.noSpellingClash d p) :
+    @setValue NameCmp.model p (.one v) d = (.ok (), d.updBind lid v) := by
+  simp only [NameAgree.setValue_model_eq_spelled p _ d hns, NameAgree.removeValue_model_eq_spelled p d hns] at *
+  exact set_attrpath_leaf d p segs v lid nm ne val bf af hnt hsp hf hl
+
+theorem set_attrpath_leaf_frame_repaired (d d' : Doc) (p : Text) (segs : List Text) (v : Node) (lid : Nat)
+    (nm : Text) (ne : Bool) (val : Node) (bf af : Payload)
+    (hnt : d.noTarget = none) (hsp : splitScopeNpath p = .ok none)
+    (hf : formatNPath currentAnchor p = .ok segs)
+    (hl : findAttrpathLeaf d.target segs = some (.bind lid nm ne val bf af))
+    (hset : @setValue NameCmp.model p (.one v) d = (.ok (), d'))
+    (hns : NameAgree.noSpellingClash d p) :
+    others lid d' = others lid d ∧ d'.frames lid = d.frames lid ∧ d'.wrappers = d.wrappers ∧
+      d'.next = d.next := by
+  simp only [NameAgree.setValue_model_eq_spelled p _ d hns, NameAgree.removeValue_model_eq_spelled p d hns] at *
+  exact set_attrpath_leaf_frame d d' p segs v lid nm ne val bf af hnt hsp hf hl hset
+
+theorem set_fresh_plain_repaired (d : Doc) (p k : Text) (v : Node) (sid : Nat)
+    (hnt : d.noTarget = none) (hsp : splitScopeNpath p = .ok none)
+    (hf : formatNPath currentAnchor p = .ok [k])
+    (hs : d.target.setSid? = some sid)
+    (hr : findAttrpathRoot d.target.setValues k = none)
+    (hb : findBinding d.target.setValues k = none)
+    (hns : NameAgree.noSpellingClash d p) :
+    @setValue NameCmp.model p (.one v) d =
+      (.ok (), { d.updSet sid (appendBothF (.bind d.next k false v [] [])) with next := d.next + 1 }) := by
+  simp only [NameAgree.setValue_model_eq_spelled p _ d hns, NameAgree.removeValue_model_eq_spelled p d hns] at *
+  exact set_fresh_plain d p k v sid hnt hsp hf hs hr hb
+
+theorem set_fresh_frame_repaired (d : Doc) (p k : Text) (v : Node) (sid : Nat) (vs o : List Node) (m r : Bool)
+    (hnt : d.noTarget = none) (hsp : splitScopeNpath p = .ok none)
+    (hf : formatNPath currentAnchor p = .ok [k])
+    (ht : d.target = .set sid vs o m r)
+    (hr : findAttrpathRoot vs k = none) (hb : findBinding vs k = none)
+    (hone : d.sidElsewhere sid = false)
+    (hns : NameAgree.noSpellingClash d p) :
+    @setValue NameCmp.model p (.one v) d =
+      (.ok (), { d with
+        target := .set sid (vs ++ [.bind d.next k false v [] []])
+          (if o.isEmpty then o else o ++ [.bind d.next k false v [] []]) m r
+        next := d.next + 1 }) := by
+  simp only [NameAgree.setValue_model_eq_spelled p _ d hns, NameAgree.removeValue_model_eq_spelled p d hns] at *
+  exact set_fresh_frame d p k v sid vs o m r hnt hsp hf ht hr hb hone
+
+theorem rm_plain_repaired (d : Doc) (p k : Text) (bid : Nat) (nm : Text) (ne : Bool)
+    (val : Node) (bf af : Payload) (sid : Nat)
+    (hnt : d.noTarget = none) (hsp : splitScopeNpath p = .ok none)
+    (hf : formatNPath currentAnchor p = .ok [k])
+    (hs : d.target.setSid? = some sid)
+    (hr : findAttrpathRoot d.target.setValues k = none)
+    (hb : findBinding d.target.setValues k = some (.bind bid nm ne val bf af))
+    (hns : NameAgree.noSpellingClash d p) :
+    @removeValue NameCmp.model p d = (.ok (), d.updSet sid (eraseBothF bid)) := by
+  simp only [NameAgree.setValue_model_eq_spelled p _ d hns, NameAgree.removeValue_model_eq_spelled p d hns] at *
+  exact rm_plain d p k bid nm ne val bf af sid hnt hsp hf hs hr hb
+
+theorem rm_frame_repaired (d : Doc) (p k : Text) (bid : Nat) (nm : Text) (ne : Bool)
+    (val : Node) (bf af : Payload) (sid : Nat) (vs o : List Node) (m r : Bool)
+    (hnt : d.noTarget = none) (hsp : splitScopeNpath p = .ok none)
+    (hf : formatNPath currentAnchor p = .ok [k])
+    (ht : d.target = .set sid vs o m r)
+    (hr : findAttrpathRoot vs k = none)
+    (hb : findBinding vs k = some (.bind bid nm ne val bf af))
+    (hone : d.sidElsewhere sid = false)
+    (hns : NameAgree.noSpellingClash d p) :
+    @removeValue NameCmp.model p d =
+      (.ok (), { d with
+        target := .set sid (vs.eraseP fun n => n.bindId? == some bid)
+          (if o.isEmpty then o else o.eraseP fun n => n.isBind && n.bindId? == some bid) m r }) := by
+  simp only [NameAgree.setValue_model_eq_spelled p _ d hns, NameAgree.removeValue_model_eq_spelled p d hns] at *
+  exact rm_frame d p k bid nm ne val bf af sid vs o m r hnt hsp hf ht hr hb hone
+
+theorem rm_unreachable_partial_repaired (d : Doc) (p k : Text) (bid : Nat) (nm : Text) (ne : Bool)
+    (val : Node) (bf af : Payload) (sid : Nat) (vs o : List Node) (m r : Bool)
+    (hnt : d.noTarget = none) (hsp : splitScopeNpath p = .ok none)
+    (hf : formatNPath currentAnchor p = .ok [k])
+    (ht : d.target = .set sid vs o m r)
+    (hr : findAttrpathRoot vs k = none)
+    (hb : findBinding vs k = some (.bind bid nm ne val bf af))
+    (hone : d.sidElsewhere sid = false)
+    (hrest : ({ d with target := hole } : Doc).hasBind bid = false)
+    (hvals : hasBindL bid (vs.eraseP fun n => n.bindId? == some bid) = false)
+    (hord : hasBindL bid (if o.isEmpty then o else o.eraseP fun n => n.isBind && n.bindId? == some bid)
+      = false)
+    (hns : NameAgree.noSpellingClash d p) :
+    d.hasBind bid = true ∧ (@removeValue NameCmp.model p d).2.hasBind bid = false := by
+  simp only [NameAgree.setValue_model_eq_spelled p _ d hns, NameAgree.removeValue_model_eq_spelled p d hns] at *
+  exact rm_unreachable_partial d p k bid nm ne val bf af sid vs o m r hnt hsp hf ht hr hb hone hrest hvals hord
+
+theorem set_scoped_creates_layer_repaired (d : Doc) (p rest k : Text) (v : Node)
+    (hnt : d.noTarget = none) (hsp : splitScopeNpath p = .ok (some (1, rest)))
+    (hf : formatNPath currentAnchor rest = .ok [k])
+    (hnl : d.NoLayers) (hpe : pathExistsInAttrset d.target [k] = false) (hfr : d.Fresh)
+    (hns : NameAgree.noSpellingClash d p) :
+    @setValue NameCmp.model p (.one v) d = (.ok (), { d with
+      tBefore := [], tAfter := [], scope := [.bind (d.next + 1) k false v [] []],
+      stBodyBefore := d.tBefore, stBodyAfter := d.tAfter, next := d.next + 2 }) := by
+  simp only [NameAgree.setValue_model_eq_spelled p _ d hns, NameAgree.removeValue_model_eq_spelled p d hns] at *
+  exact set_scoped_creates_layer d p rest k v hnt hsp hf hnl hpe hfr
+
+theorem wrappers_partial_set_repaired (d : Doc) (p : Text) (v : ValueArg) (hsp : splitScopeNpath p = .ok none)
+    (hns : NameAgree.noSpellingClash d p) :
+    (@setValue NameCmp.model p v d).2.wrappers = d.wrappers := by
+  simp only [NameAgree.setValue_model_eq_spelled p _ d hns, NameAgree.removeValue_model_eq_spelled p d hns] at *
+  exact wrappers_partial_set d p v hsp
+
+theorem wrappers_partial_rm_repaired (d : Doc) (p : Text) (hsp : splitScopeNpath p = .ok none)
+    (hns : NameAgree.noSpellingClash d p) :
+    (@removeValue NameCmp.model p d).2.wrappers = d.wrappers := by
+  simp only [NameAgree.setValue_model_eq_spelled p _ d hns, NameAgree.removeValue_model_eq_spelled p d hns] at *
+  exact wrappers_partial_rm d p hsp
 
 end Nima.C04
